@@ -8,7 +8,9 @@ import (
 	"encoding/binary"
 	"encoding/json"
 	"fmt"
+	"io"
 	"strings"
+	"testing/iotest"
 
 	tb "github.com/tonkeeper/tongo/boc"
 	"github.com/tonkeeper/tongo/liteclient"
@@ -152,6 +154,24 @@ func harnesses(r *fw.Run) []fw.HarnessSpec {
 			var tlBack ton.AccountID
 			if err := tlBack.UnmarshalTL(bytes.NewReader(want)); err != nil || tlBack != id {
 				c.Fail("UnmarshalTL", "UnmarshalTL=%v,%v", tlBack, err)
+			}
+			// the same bytes through readers that deliver them in pieces (a socket, a pipe): one byte at a time, half
+			// of the request at a time, the last piece together with io.EOF; and a second record behind the first
+			two := append(append([]byte{}, want...), want...)
+			for name, mk := range map[string]func([]byte) io.Reader{
+				"one byte at a time":       func(b []byte) io.Reader { return iotest.OneByteReader(bytes.NewReader(b)) },
+				"half reads":               func(b []byte) io.Reader { return iotest.HalfReader(bytes.NewReader(b)) },
+				"data together with EOF":   func(b []byte) io.Reader { return iotest.DataErrReader(bytes.NewReader(b)) },
+				"split inside the address": func(b []byte) io.Reader { return io.MultiReader(bytes.NewReader(b[:20]), bytes.NewReader(b[20:])) },
+			} {
+				rd := mk(two)
+				for k := 0; k < 2; k++ {
+					var x ton.AccountID
+					if err := x.UnmarshalTL(rd); err != nil || x != id {
+						c.Fail("UnmarshalTL-chunked", "UnmarshalTL of record %d through a reader with %s = %v,%v want %v", k, name, x, err, id)
+						break
+					}
+				}
 			}
 			if wide {
 				return
